@@ -9,7 +9,7 @@ import (
 // ruleF4: half-freed objects are finished before reuse or resize.
 func ruleF4(c *Ctx, id string) {
 	V, P, R := c.V, c.P, c.R
-	R.Rule(id, "half-freed objects are finished before reuse or resize: every Inode.Resize acts on an inode known not to be shrinking (obtained through getShrink / getAlloc, or under an explicit !IsShrinking test); AllocInode initialises only a non-shrinking inode; getShrink/getAlloc leave their loop with success only on the !IsShrinking edge", 5)
+	R.Rule(id, "half-freed objects are finished before reuse or resize: every Inode.Resize acts on an inode known not to be shrinking (obtained through getShrink / getAlloc, or under an explicit !IsShrinking test) or Resize only ever raises ShrinkSize; AllocInode initialises only a non-shrinking inode; getShrink/getAlloc leave their loop with success only on the !IsShrinking edge", 5)
 	getShrink := c.fn(id, "nfs.(*Nfs).getShrink")
 	getAlloc := c.fn(id, "nfs.(*Nfs).getAlloc")
 	doDec := c.fn(id, "nfs.(*Nfs).doDecLink")
@@ -68,6 +68,46 @@ func ruleF4(c *Ctx, id string) {
 		}
 		R.Check(ok && n > 0, id, FuncName(h)+"|success only when not shrinking", P.Pos(h.Pos()), "the helper reports NFS3_OK only on the edge where IsShrinking() is false", "every OK source is dominated by the !IsShrinking edge", "the helper can hand back a half-freed inode as ready: the next resize overwrites the shrink marker and the remaining blocks are leaked")
 	}
+	// Resize itself may protect a pending shrink: every store to ShrinkSize in Resize only ever raises it
+	// (dominated by ShrinkSize < the value stored).  Then a call on a possibly shrinking inode is harmless.
+	keepsPending, nSt := true, 0
+	for _, w := range FieldWrites(V.Resize) {
+		if w.Type != V.Inode || w.Field != "ShrinkSize" || w.Val == nil {
+			continue
+		}
+		nSt++
+		val := stripConv(w.Val)
+		base := stripConv(w.Base)
+		g := guardedBy(V.Resize, w.Instr.Block(), func(cd Cond) (bool, bool) {
+			op, a, b := cd.Op, cd.X, cd.Y
+			if a == nil || b == nil {
+				return false, false
+			}
+			isCur := func(v ssa.Value) bool {
+				n, fl, bs, _ := loadedField(v)
+				return n == V.Inode && fl == "ShrinkSize" && bs == base
+			}
+			if isCur(b) && stripConv(a) == val {
+				op, a, b = flipOp(op), b, a
+			}
+			if !isCur(a) || stripConv(b) != val {
+				return false, false
+			}
+			switch op {
+			case token.LSS:
+				return true, true
+			case token.GEQ:
+				return true, false
+			}
+			return false, false
+		})
+		if !g {
+			keepsPending = false
+		}
+	}
+	if nSt == 0 {
+		keepsPending = false
+	}
 	// Resize call sites
 	for _, fn := range P.RepoFuncs("nfs", "dir", "inode", "fstxn", "shrinker") {
 		for _, call := range P.CallsIn(fn, funcIs(V.Resize)) {
@@ -80,14 +120,14 @@ func ruleF4(c *Ctx, id string) {
 						continue
 					}
 					arg := callCommon(cs.Instr).Args[2]
-					ok := fromHelper(arg, getAlloc) || notShrinking(cs.Caller, cs.Instr.Block(), arg)
+					ok := keepsPending || fromHelper(arg, getAlloc) || notShrinking(cs.Caller, cs.Instr.Block(), arg)
 					key := FuncName(cs.Caller) + "|doDecLink -> Resize(0) on a possibly shrinking inode"
-					R.Check(ok, id, key, P.Pos(cs.Instr.Pos()), "the inode unlinked (and truncated to 0) is known not to be in the middle of a background shrink", "inode from getAlloc / under !IsShrinking", "the object was merely looked up: if a background shrink of it is in progress, Resize(0) overwrites ShrinkSize with the small current size and the blocks in between are never freed")
+					R.Check(ok, id, key, P.Pos(cs.Instr.Pos()), "the inode unlinked (and truncated to 0) is known not to be in the middle of a background shrink, or Resize never lowers a pending ShrinkSize", "Resize only raises ShrinkSize / inode from getAlloc / under !IsShrinking", "the object was merely looked up: if a background shrink of it is in progress, Resize(0) overwrites ShrinkSize with the small current size and the blocks in between are never freed")
 				}
 				continue
 			}
-			ok := fromHelper(ip, getShrink, getAlloc) || notShrinking(fn, call.Block(), ip)
-			R.Check(ok, id, FuncName(fn)+"|Resize on a non-shrinking inode", P.Pos(call.Pos()), "Resize acts on an inode obtained through getShrink (which finishes a pending shrink first) or under !IsShrinking", "from getShrink / guarded", "Resize on an inode whose background shrink may be in progress")
+			ok := keepsPending || fromHelper(ip, getShrink, getAlloc) || notShrinking(fn, call.Block(), ip)
+			R.Check(ok, id, FuncName(fn)+"|Resize on a non-shrinking inode", P.Pos(call.Pos()), "Resize acts on an inode obtained through getShrink (which finishes a pending shrink first) or under !IsShrinking, or Resize never lowers a pending ShrinkSize", "Resize only raises ShrinkSize / from getShrink / guarded", "Resize on an inode whose background shrink may be in progress")
 		}
 	}
 	// AllocInode
